@@ -3,27 +3,28 @@ package main
 func init() {
 	register(propSpec{
 		ID: "C13", Pkg: "props/c13", NeedCLI: true,
-		Rule: "cases: (dedup) alignments and sequence sets, nucleotide or protein, 1-10 rows of length 1-12 drawn from a pool of 1-4 base sequences over 1-4 letters plus '-' and the wildcard (N resp. X), with variants that differ only by wildcard vs gap, by the other alphabet's wildcard, by a lower case wildcard or residue, by one substitution, or (sequence sets) by being a proper prefix / an extension of another row; names in a drawn order; nAsGap on and off; every nucleotide alignment over {A,N,-} of up to 4x2 and 3x3 cells (thorough: 5x2, 4x3, 3x4) exhaustively. " +
-			"(compress) alignments of 1-8 rows x 1-14 columns whose columns are drawn with repetition from a pool of 1-5 patterns, new patterns being copies of earlier ones changed at the last, the first or a drawn row (shared prefixes of every length), over {A,C}, {A,-}, {A,C,a,c}, {A,C,G,T,-,N} or 23 protein characters; every alignment over {A,C} of up to 3 rows x 4 columns (thorough: 3x5, 4x4, 2x6) exhaustively. (command line) goalign dedup (--unaligned, --n-as-gap, -l, -o, --alphabet) and goalign compress (--weight-out, -o, --alphabet), FASTA rows up to 160 characters, ragged alignments. " +
-			"Oracle: list model - kept rows = first occurrence of each distinct key (key = the residues, with the upper case wildcard of the alphabet replaced by '-' under nAsGap) in input order with their original residues and names; groups = for each kept row the names sharing its key, kept row first; container consistent with the kept rows (count, by-name access, alignment length); a second call returns singletons and changes nothing. Compress: len(weights) = Length() = row lengths, names and row order unchanged, columns pairwise distinct, every weight >= 1 and equal to the multiplicity of its column among the original columns, the number of patterns equal to the number of distinct original columns, weights sum to the original length, a column-additive hash statistic preserved, and the same clauses for a second compression. " +
+		Rule: "cases: (dedup) alignments and sequence sets, nucleotide or protein, 1-10 rows of length 1-12 drawn from a pool of 1-4 base sequences over 1-4 letters plus '-' and the wildcard (N resp. X), with variants that differ only by wildcard vs gap, by the other alphabet's wildcard, by a lower case wildcard or residue, by one substitution, or (sequence sets) by being a proper prefix / an extension of another row; names in a drawn order; nAsGap on and off; containers whose alphabet is given (nucleotide / protein), left UNKNOWN (NewAlign/NewSeqBag(UNKNOWN) without detection), built with NewAlign(BOTH), or auto-detected on residues that fit both alphabets, one alphabet only (a U or an E in every row) or neither (J; U with E; Q with O); every alignment over {A,N,-} of up to 4x2 and 3x3 cells (thorough: 5x2, 4x3, 3x4) exhaustively, each as a nucleotide alignment, an alignment and a sequence set of UNKNOWN alphabet, NewAlign(BOTH) and an auto-detected alignment. " +
+			"(compress) alignments of 1-8 rows x 1-14 columns whose columns are drawn with repetition from a pool of 1-5 patterns, new patterns being copies of earlier ones changed at the last, the first or a drawn row (shared prefixes of every length), over {A,C}, {A,-}, {A,C,a,c}, {A,C,G,T,-,N} or 23 protein characters; every alignment over {A,C} of up to 3 rows x 4 columns (thorough: 3x5, 4x4, 2x6) exhaustively. (command line) goalign dedup (--unaligned, --n-as-gap, -l, -o, --alphabet nt/aa/auto/absent, residues of neither alphabet included) and goalign compress (--weight-out, -o, --alphabet), FASTA rows up to 160 characters, ragged alignments. " +
+			"Oracle: list model - kept rows = first occurrence of each distinct key (key = the residues, with the upper case wildcard of the alphabet replaced by '-' under nAsGap; when the alphabet is not definite every reading none/N/X/N+X is admitted, and in each of them any other residue difference keeps rows apart and kept rows keep their residues) in input order with their original residues and names; groups = for each kept row the names sharing its key, kept row first; container consistent with the kept rows (count, by-name access, alignment length); a second call returns singletons and changes nothing. Compress: len(weights) = Length() = row lengths, names and row order unchanged, columns pairwise distinct, every weight >= 1 and equal to the multiplicity of its column among the original columns, the number of patterns equal to the number of distinct original columns, weights sum to the original length, a column-additive hash statistic preserved, and the same clauses for a second compression. " +
 			"Non-trivial: at least one duplicate row (repeated column) and at least two distinct ones; distinct = distinct JSON form of the case",
 		Assumptions: []string{
-			"the wildcard is N for nucleotide and X for protein containers ('X/N (depending on alphabet)', docs/commands/dedup.md); containers are built with an explicit alphabet, and on the command line --alphabet is passed whenever --n-as-gap is used on an alignment",
-			"a lower case n/x under nAsGap is open (the documentation writes N/X): both readings are accepted and counted as ambiguous when they differ; goalign dedup --unaligned --n-as-gap on rows made only of letters common to both alphabets also accepts the reading 'no wildcard'",
+			"the wildcard is N for nucleotide and X for protein containers ('X/N (depending on alphabet)', docs/commands/dedup.md). The alphabet is definite when the container is built with it, when --alphabet nt/aa is given, or when auto-detection meets a letter of one alphabet only (Q,E,I,L,F,P,Z resp. U) and nothing outside that alphabet",
+			"when the alphabet is not definite (UNKNOWN container, NewAlign(BOTH), auto-detection on letters common to both alphabets or fitting neither) neither the doc comment of Deduplicate nor the command documentation says which wildcard nAsGap uses: the readings no wildcard, N, X, N and X are all accepted (counted as ambiguous when they differ from 'no wildcard'); Alphabet() can never be BOTH (NewAlign(BOTH) stores NUCLEOTIDS, NewSeqBag(BOTH) exits, AutoAlphabet maps BOTH to NUCLEOTIDS), so UNKNOWN is the only non-nt/aa value reachable",
+			"a lower case n/x under nAsGap is open (the documentation writes N/X): both readings are accepted and counted as ambiguous when they differ",
 			"the statement does not fix the order of the groups nor of the members behind the leader: any order is accepted (counted as ambiguous when it is not the input order)",
 			"characters are ASCII",
 			"absence of violations is established on the explored cases only; the listed small shapes are enumerated completely",
 		},
-		LevelText: "Generated-input search against a reference model plus bounded-exhaustive enumeration: ~200 000 (quick) to ~6 million (thorough) alignments, sequence sets and command executions compared with a list model of de-duplication and a multiset model of site compression, and complete enumeration of all alignments over {A,N,-} up to 4x2/3x3 (dedup, both settings) and over {A,C} up to 3x4 (compress). Shows absence of violations on what was explored; the enumerated shapes are complete.",
+		LevelText: "Generated-input search against a reference model plus bounded-exhaustive enumeration: ~160 000 (quick) to ~6 million (thorough) alignments, sequence sets and command executions compared with a list model of de-duplication and a multiset model of site compression, and complete enumeration of all alignments over {A,N,-} up to 4x2/3x3 (dedup, both settings) and over {A,C} up to 3x4 (compress). Shows absence of violations on what was explored; the enumerated shapes are complete.",
 		LevelNote: "trusts the harness's list/multiset models and its minimal FASTA, group-log and weight-file readers",
 		Technique: "property-based testing (rapid): reference model, idempotence, multiset/column-additive invariants; bounded-exhaustive enumeration; command-line differential",
 		DesignRef: "DESIGN.md section 5, C13",
 		Runs: []runSpec{
 			{Name: "dedup-exhaustive", Test: "^TestDedupExhaustive$", Quick: 1, Thorough: 1},
 			{Name: "compress-exhaustive", Test: "^TestCompressExhaustive$", Quick: 1, Thorough: 1},
-			{Name: "dedup", Test: "^TestDedup$", Quick: 100000, Thorough: 400000, Shards: 6},
-			{Name: "compress", Test: "^TestCompress$", Quick: 100000, Thorough: 400000, Shards: 6},
-			{Name: "cli", Test: "^TestCLI$", Quick: 1500, Thorough: 5000, Shards: 4},
+			{Name: "dedup", Test: "^TestDedup$", Quick: 80000, Thorough: 400000, Shards: 6},
+			{Name: "compress", Test: "^TestCompress$", Quick: 80000, Thorough: 400000, Shards: 6},
+			{Name: "cli", Test: "^TestCLI$", Quick: 1200, Thorough: 5000, Shards: 4},
 		},
 	})
 }
